@@ -147,6 +147,47 @@ let msource (conds : string) (a : jv) : mt * (int * z list) list * int =
   let t = go a 0 in
   (t, List.rev !bufs, !addr)
 
+(* userdata rules (<cond>=<D|N>;...) applied in pre-order: the text of node number n is "<u n>";
+   an annotated double carries the text as its retained text *)
+let apply_ud (rules : string) (a : jv) : jv * (int * z list * char) option list =
+  let counter = ref 0 and anns = ref [] in
+  let rec go (v : jv) parent key idx depth : jv =
+    match v with
+    | JNull -> JNull
+    | _ ->
+      let n = !counter in
+      incr counter;
+      let call = { c_src = v; c_parent = parent; c_key = key; c_idx = idx; c_depth = z_of_int depth } in
+      let ans = eval_answer rules n call in
+      let text = bytes_of_string (Printf.sprintf "<u%d>" n) in
+      let ann = if ans = 'D' || ans = 'N' then Some (n, text, ans) else None in
+      anns := ann :: !anns;
+      (match v with
+       | JDouble (b, t) -> JDouble (b, (match ann with Some _ -> Some text | None -> t))
+       | JArr l -> let (_, kids) = List.fold_left (fun (i, acc) x -> (i + 1, go x (Some v) None (Some (z_of_int i)) (depth + 1) :: acc)) (0, []) l in
+         JArr (List.rev kids)
+       | JObj l -> let kids = List.fold_left (fun acc (k, x) -> (k, go x (Some v) (Some k) None (depth + 1)) :: acc) [] l in
+         JObj (List.rev kids)
+       | _ -> v) in
+  let a' = go a None None None 0 in
+  (a', List.rev !anns)
+
+(* the retained text of a double IS its userdata: after the caller rewrote its buffers the dump
+   of the source shows the new text *)
+let retext (v : jv) (anns : uanns) : jv =
+  let rest = ref anns in
+  let rec go (v : jv) : jv =
+    match v with
+    | JNull -> JNull
+    | _ ->
+      let me = (match !rest with x :: t -> rest := t; x | [] -> None) in
+      (match v with
+       | JDouble (b, t) -> JDouble (b, (match me with Some u -> Some u.ud_text | None -> t))
+       | JArr l -> JArr (List.rev (List.fold_left (fun acc x -> go x :: acc) [] l))
+       | JObj l -> JObj (List.rev (List.fold_left (fun acc (k, x) -> (k, go x) :: acc) [] l))
+       | _ -> v) in
+  go v
+
 let rec count_members (v : jv) : int =
   match v with
   | JArr l -> List.fold_left (fun n x -> n + count_members x) 0 l
@@ -222,30 +263,47 @@ let run line =
         Printf.sprintf "K 0 %s %s %s %d %s %s %s %s 6 %s %s" (e ta tc) (e tc ta) (dump (erase tc)) (inter (addrs ta) (addrs tc))
           (oks_text og) (e ta tc) (e tc ta) (e ta tb) (e tc tb) (e tb tc) in
     String.concat " | " [head; k; "live=0"]
-  | ["B"; sa; conds; smut] ->
-    let a = Jvtext.jv_of_string sa in
+  | "B" :: sa :: conds :: rest when List.length rest = 1 || List.length rest = 2 ->
+    let (udrules, smut) = (match rest with [m] -> ("-", m) | [u; m] -> (u, m) | _ -> assert false) in
+    let a0 = Jvtext.jv_of_string sa in
+    let (a, marks) = apply_ud udrules a0 in
     let (src, bufs, n0) = msource conds a in
     (match deep_copy_root a with
      | None -> "B -1 EINVAL | live=0"
      | Some _ ->
-       let (cpy, n1) = mt_copy src (z_of_int n0) in
-       let (tref, _) = build a n1 in
+       (* the source's userdata: D texts in blocks of their own, N texts in caller buffers 0, 1, ... *)
+       let next = ref n0 and nbuf = ref 0 in
+       let sanns = List.map (function
+           | None -> None
+           | Some (_, text, 'D') -> let x = !next in incr next; Some { ud_text = text; ud_store = KOwn (z_of_int x); ud_delete = true }
+           | Some (_, text, _) -> let b = !nbuf in incr nbuf; Some { ud_text = text; ud_store = KBorrowed (z_of_int b); ud_delete = false }) marks in
+       let (cpy, n1) = mt_copy src (z_of_int !next) in
+       let (canns, n2) = copy_uanns sanns n1 in
+       let (tref, _) = build a0 n2 in
        let e x y = b01 (nt_equal x y) in
        let c = mt_erase cpy in
        let ks = key_stores src and kc = key_stores cpy in
-       let kconst = List.length (List.filter (function KBorrowed _ -> true | KOwn _ -> false) kc) in
-       let head = Printf.sprintf "B 0 %s %s %s %s %d %d %d %d %d" (e (mt_nodes src) (mt_nodes cpy)) (e (mt_nodes cpy) (mt_nodes src))
-           (dump (mt_erase src)) (dump c) (List.length bufs)
-           (List.length (List.filter (function KBorrowed _ -> true | KOwn _ -> false) ks)) (inter kc ks) kconst kconst in
+       let nb l = List.length (List.filter (function KBorrowed _ -> true | KOwn _ -> false) l) in
+       let ud_text anns = (let l = List.concat (List.mapi (fun i o -> match o with
+           | Some u -> [Printf.sprintf "%d:%s:%s" i (hex_of_bytes u.ud_text) (if u.ud_delete then "D" else "N")]
+           | None -> []) anns) in if l = [] then "-" else String.concat "," l) in
+       let head = Printf.sprintf "B 0 %s %s %s %s %d %d %d %d %d %s %s %d %d %d" (e (mt_nodes src) (mt_nodes cpy)) (e (mt_nodes cpy) (mt_nodes src))
+           (dump (mt_erase src)) (dump c) (List.length bufs) (nb ks) (inter kc ks) (nb kc) (nb kc)
+           (ud_text sanns) (ud_text canns) !nbuf (inter (ud_stores canns) (ud_stores sanns)) (nb (ud_stores canns)) in
        (* the caller overwrites its buffers in place *)
        let flip k = match k with [] -> [] | x :: t -> (if int_of_z x = 90 then z_of_int 89 else z_of_int 90) :: t in
        let src' = List.fold_left (fun t (b, k) -> kbuf_write (z_of_int b) (flip k) t) src bufs in
        let cpy' = List.fold_left (fun t (b, k) -> kbuf_write (z_of_int b) (flip k) t) cpy bufs in
+       let ubufs = List.concat (List.map (function Some { ud_text = t; ud_store = KBorrowed b; _ } -> [(b, t)] | _ -> []) sanns) in
+       let sanns' = List.fold_left (fun an (b, t) -> ubuf_write b (flip t) an) sanns ubufs in
+       let canns' = List.fold_left (fun an (b, t) -> ubuf_write b (flip t) an) canns ubufs in
        let nm = count_members a in
-       let obs t = Printf.sprintf "%s %d/%d %s %s 2" (dump (mt_erase t)) nm nm (e (mt_nodes t) tref) (e tref (mt_nodes t)) in
+       let obs t an = Printf.sprintf "%s %d/%d %s %s 2 %s" (dump (mt_erase t)) nm nm (e (mt_nodes t) tref) (e tref (mt_nodes t)) (ud_text an) in
        let (r, c') = (match mutate_at (fst (parse_mut smut)) (snd (parse_mut smut)) (mt_erase cpy') with
            | Some v -> ("ok", v) | None -> ("bad", mt_erase cpy')) in
-       String.concat " | " [head; "I " ^ dump (mt_erase src') ^ " " ^ obs cpy'; "F 1 " ^ obs cpy'; "P " ^ r ^ " " ^ dump c'; "live=0"])
+       String.concat " | " [head; "I " ^ dump (retext (mt_erase src') sanns') ^ " " ^ ud_text sanns' ^ " " ^ obs cpy' canns';
+                            "F 1 " ^ obs cpy' canns'; "P " ^ r ^ " " ^ dump c';
+                            Printf.sprintf "live=%d" (List.length (unreleased canns))])
   | ["Y"; sa; rules; tags] ->
     let a = Jvtext.jv_of_string sa in
     let (r, h) = deep_copy_cb_root (env_of rules tags) a in
